@@ -25,10 +25,10 @@ def exc_text(e: BaseException) -> str:
 
 
 class Failure:
-    __slots__ = ('clause', 'info', 'exc')
+    __slots__ = ('clause', 'info', 'exc', 'order_only')
 
-    def __init__(self, clause, info, exc=None):
-        self.clause, self.info, self.exc = clause, info, exc
+    def __init__(self, clause, info, exc=None, order_only=False):
+        self.clause, self.info, self.exc, self.order_only = clause, info, exc, order_only
 
     def __repr__(self):
         return f'{self.clause}: {self.info}'
@@ -158,6 +158,16 @@ def shrink(ty: Ty, v, fails, budget=200, memo_key=None):
             if n >= budget:
                 break
     return ty, v
+
+
+def unordered(x):
+    """abstract value / frozen Python object with every tuple of items sorted: equal images = same content up to order."""
+    if isinstance(x, tuple):
+        items = tuple(unordered(i) for i in x)
+        if x and x[0] in ('Set', 'Map', 'BigMap', 'list', 'dict', 'set') and len(x) == 2 and isinstance(x[1], tuple):
+            return (x[0], tuple(sorted((unordered(i) for i in x[1]), key=repr)))
+        return items
+    return x
 
 
 def skeleton(ty: Ty, depth=3) -> str:
